@@ -265,6 +265,31 @@ impl Property for C12 {
                 Case::Text(gen_case(&mut Choices::new(&e), Some(m)))
             })
         });
+        // every single-character replacement / insertion by every printable ASCII character outside the
+        // URL-safe alphabet (and a few others) at every position of one record's text
+        let base_text = {
+            let e = det_entropy("c12/base", 1, 2000);
+            let t = gen_case(&mut Choices::new(&e), Some("valid"));
+            t.s
+        };
+        let foreign: Vec<char> = (0x20u8..0x7f).map(|b| b as char).filter(|c| !(c.is_ascii_alphanumeric() || *c == '-' || *c == '_')).chain(['\t', '\n', '\r', '\0', 'é', '－']).collect();
+        let step = if quick { 3 } else { 1 };
+        let bt = base_text.clone();
+        let edits = (4..base_text.chars().count()).step_by(step).flat_map(move |pos| {
+            let bt = bt.clone();
+            foreign.clone().into_iter().flat_map(move |ch| {
+                let chars: Vec<char> = bt.chars().collect();
+                let mut a = chars.clone();
+                a[pos] = ch;
+                let mut b = chars;
+                b.insert(pos, ch);
+                [
+                    Case::Text(TextCase { s: a.into_iter().collect(), label: "insert-char".into() }),
+                    Case::Text(TextCase { s: b.into_iter().collect(), label: "insert-char".into() }),
+                ]
+            })
+        });
+        let texts = texts.chain(edits);
         let fams = if quick { vec![crate::keys::FamId::Tiny, crate::keys::FamId::Wide] } else { crate::keys::ALL_FAMS.to_vec() };
         let hists = fams.into_iter().flat_map(|f| crate::gen::history::exhaustive(f, 1)).map(Case::Hist);
         Box::new(texts.chain(hists))
